@@ -1,1 +1,41 @@
-(* placeholder until the theorems are in place *)
+(* C20 — the printed par/seq plan. Statements only; proofs in PlanPrint.v. *)
+From Shred Require Import Base SrcParams Plan PlanObs PlanLemmas PlanInv PlanLoc PlanBuild PlanProps PlanPrint.
+
+(* The text written by write_par_seq (print_builder walks the ID table and the name map) is
+   the rendering of the EXECUTED layout — the boxed systems stage by stage, group by group,
+   member by member — where each executed system is shown by its sanitised name, or by the
+   placeholder of its id when it was registered without a name; every executed system belongs
+   to exactly one registration. *)
+Theorem C20_printed_text_is_the_executed_layout :
+  forall rs b, plan rs = Ok b -> Forall reg_time_ok1 rs ->
+  exists done, binv b done /\ map (fun e => o_tag (e_op e)) done = sys_tags rs /\
+    print_builder b = render (shown_layout done b) /\
+    (forall e, In e done -> display (names_of done) (s_id (e_sys e)) = shown e) /\
+    (forall s, In s (placed b) -> exists e, In e done /\ e_sys e = s).
+Proof. exact print_matches_exec. Qed.
+Print Assumptions C20_printed_text_is_the_executed_layout.
+
+(* slot by slot: as many names in every printed group as systems executed in that group *)
+Theorem C20_printed_shape_is_executed_shape :
+  forall rs b, plan rs = Ok b -> Forall reg_time_ok1 rs ->
+  exists done, print_builder b = render (shown_layout done b) /\
+    map (map (@length name)) (shown_layout done b) = shape b.
+Proof. exact print_shape_matches_exec. Qed.
+Print Assumptions C20_printed_shape_is_executed_shape.
+
+(* what is shown *)
+Theorem C20_shown_name :
+  forall e, shown e = if is_empty_name (o_name (e_op e)) then placeholder (s_id (e_sys e))
+                      else sanitise (o_name (e_op e)).
+Proof. reflexivity. Qed.
+Print Assumptions C20_shown_name.
+
+(* the printer is a total function of the builder (the repaired code has no unwrap on the name
+   lookup: fixed 526450e); an empty builder prints "seq![\n]\n" *)
+Example C20_empty : print_builder empty_builder = [115;101;113;33;91;10;93;10]%N.
+Proof. vm_compute. reflexivity. Qed.
+Example C20_example :
+  let rs := [RSys 1 [120;32;121] [] [] [] 3%Z; RSys 2 [] [] [] [] 3%Z] in
+  exists b, plan rs = Ok b /\
+    print_builder b = render [[[ [120;95;121] ]; [ [117;110;110;97;109;101;100;95;49] ]]]%N.
+Proof. eexists. split; vm_compute; reflexivity. Qed.
